@@ -98,6 +98,8 @@ func GetJournalctlLogs(path string, since string, useFile bool) (io.Reader, erro
 		}
 		scanner = bufio.NewScanner(&stdout)
 	}
+	// Do not stop on lines longer than the default 64 KiB token size
+	scanner.Buffer(make([]byte, 0, bufio.MaxScanTokenSize), math.MaxInt)
 
 	var jctlRaw []string
 	for scanner.Scan() {
